@@ -60,7 +60,7 @@ def classify(tok):
 def run(v):
     ensure_dirs()
     hbin = build_harness()
-    fam = D.help_family(SEED + 120, 120 if v.tier == "quick" else 1500)
+    fam = D.help_family(SEED + 120, 500 if v.tier == "quick" else 6000)
     recs, t = judge_render(v, "C12", hbin, fam, "h")
     levels = len(recs)
     samples = [{"def": r["def"], "path": r["path"], "items": r["items"][:12]} for r in recs[5:8]]
